@@ -35,7 +35,7 @@ def _flags():
     bound="a version 0 PSBT with 1..2 inputs of the named kind (single-key p2wpkh, p2pkh, p2sh-p2wpkh, p2wsh(<key> CHECKSIG)), one output; amounts, sequences, lock time, version and the signature's "
           "hash type (six ECDSA types) symbolic; the input holds one partial signature: finalize builds the spend, extract_tx the transaction, and verify_input (standard flags) runs it -- the "
           "digest the engine hands to ECDSA verification, the digest the Finalizer verified and psbt.ecdsa_sig_hash are one value, the key and signature checked are the stored ones, the engine "
-          "accepts when that verification succeeds, and changing the paid amount afterwards changes the engine's digest unless the hash type is NONE",
+          "accepts when that verification succeeds, changing the paid amount afterwards changes the engine's digest unless the hash type is NONE, and changing the other input's sequence changes it under SIGHASH_ALL",
     stubs=["dsa.verify_ (Finalizer) and script.dsa_verify (engine) record their arguments and answer True: the ECDSA equation is C02's subject", "sha256 / ripemd160 injective uninterpreted functions"],
     functions=["btclib.psbt.psbt.finalize", "btclib.psbt.psbt.extract_tx", "btclib.script.engine.verify_input", "btclib.script.engine.script.op_checksig"],
     outside=["descriptor parsing, BIP32 derivation and RFC 6979 (C14, C07, C02)", "multisig and taproot script paths", "tampering other than the paid amount"], min_ok=1, timeout=600)
@@ -128,13 +128,26 @@ def ecdsa_closure(ex, kind, nin):
     if len(eng_calls) == n0 + 1:
         base = ht & 0x1F
         claims["a_changed_amount_changes_the_digest_unless_NONE"] = implies(snot(base == 2), eng_calls[-1][0] != want[0])
+    if nin == 2:
+        # the other input's sequence is edited after signing: input 0's digest moves under SIGHASH_ALL (BIP143 / legacy commit to every sequence then)
+        vin = list(final.vin)
+        vin[1] = TxIn(vin[1].prev_out, vin[1].script_sig, (seqs[1] + delta) & 0xFFFFFFFF, vin[1].script_witness, check_validity=False)
+        t2 = Tx(final.version, final.lock_time, vin, final.vout, check_validity=False)
+        n0 = len(eng_calls)
+        try:
+            verify_input(prevouts, t2, 0, _flags())
+        except (ScriptError, BTClibValueError):
+            pass
+        if len(eng_calls) == n0 + 1:
+            moved = ((seqs[1] + delta) & 0xFFFFFFFF) != seqs[1]
+            claims["another_inputs_sequence_is_committed_to_under_ALL"] = implies(sand(ht == 1, moved), eng_calls[-1][0] != want[0])
     return claims
 
 
 @ob("C10", "finalized_taproot_key_spend_is_verified_against_the_signed_digest", quick=[dict(nin=n, explicit=e) for n in (1, 2) for e in (0, 1)],
     bound="a version 0 PSBT with 1..2 taproot inputs (amounts, sequences, lock time, version symbolic) each holding a key path signature of 64 bytes (SIGHASH_DEFAULT) or of 65 bytes with a symbolic "
           "hash type over the six explicit types: finalize / extract_tx / verify_input -- the digest the engine hands to BIP340 verification is the one the Finalizer verified and "
-          "psbt.taproot_sig_hash computed, over the same output key and the same 64 signature bytes, and the engine accepts when that verification succeeds",
+          "psbt.taproot_sig_hash computed, over the same output key and the same 64 signature bytes, the engine accepts when that verification succeeds, and editing the other input's sequence afterwards changes the digest unless the type is ANYONECANPAY (BIP341 commits to all sequences otherwise)",
     stubs=["ssa.verify_ (Finalizer) and tapscript.ssa_verify (engine) record their arguments and answer True: the BIP340 equation is C03's subject", "sha256 injective uninterpreted function"],
     functions=["btclib.psbt.psbt.finalize", "btclib.psbt.psbt._finalized_taproot_input", "btclib.script.engine.verify_input", "btclib.script.engine.tapscript.verify_key_path"],
     outside=["script path spends; the tweak from internal to output key (C12)"], min_ok=1, timeout=600)
@@ -187,8 +200,22 @@ def taproot_closure(ex, nin, explicit):
         claims[f"input_{i}_engine_digest_is_the_signed_digest"] = sand(d_e == want[i], fin_calls[i][0] == want[i] if i < len(fin_calls) else False)
         claims[f"input_{i}_engine_checks_the_output_key_and_signature"] = sand(key_e == _G, sig_e == sig64)
     claims["engine_accepts_the_finalized_spend"] = ok_all
+    if nin == 2:
+        # BIP341: every signature without ANYONECANPAY commits to the sequences of all inputs, whatever its output mode
+        delta = ex.int("delta", 1, 1000)
+        vin = list(final.vin)
+        vin[1] = TxIn(vin[1].prev_out, vin[1].script_sig, (seqs[1] + delta) & 0xFFFFFFFF, vin[1].script_witness, check_validity=False)
+        t2 = Tx(final.version, final.lock_time, vin, final.vout, check_validity=False)
+        n0 = len(eng_calls)
+        try:
+            verify_input(prevouts, t2, 0, _flags())
+        except (ScriptError, BTClibValueError):
+            pass
+        if len(eng_calls) == n0 + 1:
+            moved = ((seqs[1] + delta) & 0xFFFFFFFF) != seqs[1]
+            acp = ((ht & 0x80) != 0) if explicit else False
+            claims["another_inputs_sequence_is_committed_to_unless_ANYONECANPAY"] = implies(sand(snot(acp), moved), eng_calls[-1][0] != want[0])
     return claims
-
 
 
 # ------------------------------------------------------------------ taproot script path (single-key leaf)
